@@ -183,12 +183,23 @@ func (i *fsInjector) disarm() (int, string) {
 
 func runErrCase(t *rapid.T, st *vfhelp.Stats, tr Traits, inj injector) {
 	gen := GenCfg{MaxEntries: 120, MinOps: 3, MaxOps: 12, NoQuery: true, NoCompact: true}
+	if tr.Tan {
+		// records spanning several 32 KiB blocks of tan's log format: one file
+		// Write per full block, so a one-shot error can hit a non-last Write of a
+		// record
+		gen.BigCmd = true
+		gen.GiantOneIn = 12
+	}
 	gen.Count = func(l string) { st.Count(l, 1) }
 	w := genWorkload(t, tr, &gen)
 	// the target call: a save on the state the prefix left behind
 	m := w.models[len(w.ops)].Clone()
 	tgen := gen
 	tgen.NoReopen, tgen.NoImport, tgen.NoRemoveNode = true, true, true
+	if tr.Tan {
+		tgen.GiantOneIn = 2
+		tgen.Weights = map[OpKind]int{OpSave: 80}
+	}
 	var target Op
 	for try := 0; ; try++ {
 		target = GenOp(t, m, tr, &tgen)
@@ -251,6 +262,20 @@ func runErrCase(t *rapid.T, st *vfhelp.Stats, tr Traits, inj injector) {
 		err, panicked := s.ExecSafe(target, before)
 		_, failedOp := inj.disarm()
 		labels := []string{"target-" + opNames[target.Kind]}
+		for _, l := range target.Labels {
+			if l == "giant-command" {
+				labels = append(labels, "target-with-giant-command")
+			}
+		}
+		// a call that reported success must be readable in the running store too
+		var liveMis *Mismatch
+		if err == nil && failedOp != "" {
+			for _, r := range after.Reps {
+				if !r.Removed && liveMis == nil {
+					liveMis = CheckReplica(s.DB, r, tr)
+				}
+			}
+		}
 		if failedOp == "" {
 			// the j-th operation was not reached this time (background I/O)
 			st.Count("injection-not-reached", 1)
@@ -307,6 +332,11 @@ func runErrCase(t *rapid.T, st *vfhelp.Stats, tr Traits, inj injector) {
 					_ = s2.Close()
 					vfhelp.Fail(t, sig, "%s", msg)
 				}
+			}
+			if known == "" && liveMis != nil {
+				_ = s2.Close()
+				failf("injected-error-returned-nil-not-readable-live", "the %d-th storage operation (%s) of the target call "+
+					"failed, the call returned nil, the running store does not show it applied: %s", j, failedOp, liveMis.Msg)
 			}
 			if known == "" {
 				labels = append(labels, "returned-nil-and-applied")
